@@ -180,8 +180,8 @@ func childC18(ctx *core.Ctx, raw []byte) {
 		viol("lifecycle.execute_error", err.Error())
 		return
 	}
-	var stopped int32     // set only AFTER Stop() returned
-	var stopCalled int32  // set before Stop() is called
+	var stopped int32    // set only AFTER Stop() returned
+	var stopCalled int32 // set before Stop() is called
 	var sinkCalls, sinkAfterStop, inSink, overlapSink, overlapEmit, inEmit int64
 	var afterStopDetail atomic.Value
 	release := make(chan struct{})
